@@ -979,7 +979,7 @@ static int parse_data(vnacal_load_state_t *vlsp, const vnacal_layout_t *vlp,
 	/*
 	 * Make sure we have the frequency and that it's ascending.
 	 */
-	if (frequency < 0.0) {
+	if (!(frequency >= 0.0)) {	/* also refuses NaN */
 	    _vnacal_error(vcp, VNAERR_SYNTAX,
 		    "%s (line %ld) error: missing required field \"f\"",
 		    vcp->vc_filename, child->start_mark.line + 1);
